@@ -13,6 +13,15 @@ Theorem c12_read_total : forall v op s,
 Proof. exact read_total_lemma. Qed.
 Print Assumptions c12_read_total.
 
+(* an error is one of the package's documented errors (by the type oct_err), and more
+   precisely: fixed-width reads only ErrNotEnoughData; Read7BitEncodedInt also ErrBad7BitInt;
+   ReadBytes/ReadString also ErrNegativeSize; OctetsStream.Read only ErrInvalidArgument, and
+   only for an empty buffer (oct_err_allowed) *)
+Theorem c12_read_errors_documented : forall v op s e s' a,
+  oct_wf s -> oct_op_ok op = true -> oct_read_op v op s = (Err e, s', a) -> oct_err_allowed op e.
+Proof. exact read_errors_lemma. Qed.
+Print Assumptions c12_read_errors_documented.
+
 (* cursor stays within [0, Len], never moves backwards; buffer and Len unchanged *)
 Theorem c12_read_cursor_in_bounds : forall v op s r s' a,
   oct_wf s -> oct_op_ok op = true -> oct_read_op v op s = (r, s', a) ->
